@@ -116,6 +116,16 @@ CHECKS = {
     technique="Lean 4 theorems (normalisation and validation decision logic); metamorphic + differential checks on the implementation",
     design="3/C18",
     note="YAML/CSV/CLI layers are covered by the correspondence layer only."),
+ "C19": dict(
+    text="Proof: time-slot slices are consecutive, have the recorded lengths and concatenate to the instance list (empty slots included); "
+         "SQLite instance rows are exactly the instances in order, each with its slot's time stamp; a binned particle lies in its bin and "
+         "exactly the particles with e0 <= x <= eN are binned, so the cell counts sum to the number of particles within the outer edges; "
+         "edges are midpoints with mirrored outer edges; the settled selection picks, for every pid exactly once (strictly increasing), its "
+         "last instance. Tie: _edges, histogram binning (vs np.histogramdd through from_particles, 1..3 dims), slicing and "
+         "get_settled_particles against the model; SQLite through an in-memory database.",
+    technique="Lean 4 theorems (list partition, counting by indicator sums, last-index search); differential correspondence",
+    design="3/C19",
+    note="Weighted sums are conserved by the same partition argument but are checked numerically only (1e-9); netCDF/xarray/sqlite layers are exercised, not modelled."),
 }
 
 def main():
